@@ -4,9 +4,9 @@
 //!  * controlled schedules: real threads run the pool code and hand a baton back to a controlling
 //!    thread at every schedule point of the `zipora_verif` hooks (one point before each shared
 //!    access of the free-list code), so a schedule is a list of thread ids and replays exactly.
-//!    Cells: LockFreeMemoryPool (tagged head, compared with the Coq model step by step),
-//!    five-level LockFreePool (compared with the model), FixedCapacityMemoryPool and the
-//!    SecureMemoryPool (cache + Treiber stack) - oracle only.
+//!    Cells: LockFreeMemoryPool, five-level LockFreePool, FixedCapacityMemoryPool, SecureMemoryPool
+//!    (caches + Treiber stack) and MemoryPool (pool.rs) - each compared with its Coq model step by step
+//!    (coq/C08/Cases.v) on top of the oracle.
 //!  * free-running stress with an ownership table for every pool the property names.
 //! The oracle is the property: a block handed out while another thread owns it, a block that is
 //! neither owned nor reachable after quiescence, a free list with a cycle / foreign link /
@@ -26,21 +26,11 @@ use zipora::memory::{
 };
 
 const HEADER: &str = r#"From ZV.Common Require Import Base Run.
-From ZV.C08 Require Import Model.
+From ZV.C08 Require Import Model ModelFixedCap ModelSecure ModelMemPool Cases.
 Open Scope N_scope.
-(* kind (0 lockfree_pool.rs, 1 five_level_pool.rs), block size, capacity, threads, schedule,
-   observed hook notes (site, value flattened), final [head; count; bump], free list, held sets *)
-Definition case_t : Type := N * N * N * nat * list (nat * cmd) * list N * list N * option (list N) * list (list N).
-Definition eqb_oln (a b : option (list N)) : bool :=
-  match a, b with Some x, Some y => eqb_ln x y | None, None => true | _, _ => false end.
-Fixpoint eqb_lln (a b : list (list N)) : bool :=
-  match a, b with [] , [] => true | x :: a', y :: b' => eqb_ln x y && eqb_lln a' b' | _, _ => false end.
-Definition ok (c : case_t) : bool :=
-  let '(kind, bs, capacity, nthr, sc, notes, fin, free, helds) := c in
-  let cf := if kind =? 0 then cfg_lockfree bs capacity else cfg_fivelevel bs capacity in
-  let '(s, ev) := run_trace cf (init nthr cf) sc in
-  let '(f1, f2, f3) := final_obs cf s 64 in
-  eqb_ln (flat ev) notes && eqb_ln f1 fin && eqb_oln f2 free && eqb_lln f3 helds.
+(* the case types and the functions that run the models on them are in coq/C08/Cases.v *)
+Definition case_t : Type := xcase.
+Definition ok : case_t -> bool := xok.
 "#;
 
 // ------------------------------------------------------------------------------------------
@@ -81,13 +71,13 @@ fn op_parse(s: &str) -> Option<Op> {
 
 /// Model-level command that accompanies a schedule step.
 #[derive(Clone, Debug)]
-enum Cm { None, Pop, Push(u64), Scr(u64, u64) }
+enum Cm { None, Pop, Push(u64), Scr(u64, u64, u64) }
 fn cm_coq(c: &Cm) -> String {
     match c {
         Cm::None => "CNone".into(),
         Cm::Pop => "CPop".into(),
         Cm::Push(b) => format!("CPush {}", b),
-        Cm::Scr(b, v) => format!("CScribble {} {}", b, v),
+        Cm::Scr(b, v, _) => format!("CScribble {} {}", b, v),
     }
 }
 
@@ -158,6 +148,8 @@ impl Baton {
 trait Cell: Send + Sync + 'static {
     type H;
     fn alloc(&self) -> Result<(Self::H, u64), String>;
+    /// allocation on behalf of worker `tid` (pools whose request size depends on the thread)
+    fn alloc_t(&self, _tid: usize) -> Result<(Self::H, u64), String> { self.alloc() }
     fn free(&self, h: Self::H);
     /// the owner writes into its block; `v` is a link-like value
     fn scribble(&self, h: &mut Self::H, v: u64);
@@ -169,6 +161,8 @@ trait Cell: Send + Sync + 'static {
 }
 
 const ABORT_MSG: &str = "zv-abort";
+/// schedule entries from here on mean "a whole operation of thread (entry - WHOLE_OP)"
+const WHOLE_OP: usize = 1000;
 
 fn worker<C: Cell>(cell: Arc<C>, baton: Arc<Baton>, tid: usize) {
     let b2 = baton.clone();
@@ -204,7 +198,7 @@ fn worker<C: Cell>(cell: Arc<C>, baton: Arc<Baton>, tid: usize) {
             None => OpResult::Done,
             Some((Op::Alloc, _)) => {
                 let c = cell.clone();
-                match guarded(move || c.alloc()) {
+                match guarded(move || c.alloc_t(tid)) {
                     Ok(Ok((h, id))) => { held.push(h); OpResult::Block(id) }
                     Ok(Err(e)) => OpResult::Failed(e),
                     Err(p) => OpResult::Panicked(p),
@@ -268,6 +262,14 @@ struct RunOut {
     notes: Vec<(usize, u32, u64)>,
     held: Vec<Vec<u64>>,
     ever: BTreeSet<u64>,
+    /// blocks in the order in which they were first handed out
+    order: Vec<u64>,
+    /// for every entry of `eff`: the number of notes logged before that turn
+    eff_notes: Vec<usize>,
+    /// for every entry of `eff`: the schedule point the thread was parked at before the turn (None: between operations)
+    eff_site: Vec<Option<u32>>,
+    /// for every entry of `eff`: the block an allocation that completed in this turn returned
+    eff_result: Vec<Option<u64>>,
     fails: Vec<(Option<String>, String)>,
     exit_info: Vec<Vec<u64>>,
     aborted: bool,
@@ -287,7 +289,7 @@ impl ScribbleMap {
 fn controlled_run<C: Cell>(
     cell: Arc<C>, progs: &[Vec<Op>], sched: &[usize], smap: &ScribbleMap, watch: &mut dyn Watch,
     inspect: &mut dyn FnMut(&RunOut) -> Vec<(Option<String>, String)>,
-    scribbler: &dyn Fn(u64, u64),
+    scribbler: &dyn Fn(u64, u64) -> u64,
 ) -> RunOut {
     let n = progs.len();
     let baton = Baton::new(n);
@@ -298,7 +300,7 @@ fn controlled_run<C: Cell>(
         handles.push(std::thread::Builder::new().stack_size(1 << 20).spawn(move || worker(c, b, t)).unwrap());
     }
     let mut out = RunOut {
-        eff: vec![], notes: vec![], held: vec![vec![]; n], ever: BTreeSet::new(), fails: vec![], exit_info: vec![vec![]; n],
+        eff: vec![], notes: vec![], held: vec![vec![]; n], ever: BTreeSet::new(), order: vec![], eff_notes: vec![], eff_site: vec![], eff_result: vec![], fails: vec![], exit_info: vec![vec![]; n],
         aborted: false, allocs_ok: 0, frees: 0, alloc_calls: 0,
     };
     let mut owner: HashMap<u64, usize> = HashMap::new();
@@ -340,8 +342,8 @@ fn controlled_run<C: Cell>(
                         let b = out.held[t][kidx];
                         let v = smap.value(*j);
                         // performed here, on behalf of the owner, while every thread is parked
-                        scribbler(b, v);
-                        cm = Cm::Scr(b, v);
+                        let m = scribbler(b, v);
+                        cm = Cm::Scr(b, v, m);
                     }
                 }
                 Op::Malloc => {}
@@ -352,6 +354,9 @@ fn controlled_run<C: Cell>(
             g.result[t] = None;
         }
         out.eff.push((t, cm));
+        out.eff_notes.push(out.notes.len());
+        out.eff_site.push(if mid { site } else { None });
+        out.eff_result.push(None);
         if !baton.give(t) {
             out.fails.push((None, format!("thread {} did not reach a schedule point within 10 s", t)));
             hung = true;
@@ -380,7 +385,8 @@ fn controlled_run<C: Cell>(
                         out.fails.push((None, format!("block {} handed to thread {} while thread {} owns it", b, t, o)));
                     }
                     owner.insert(b, t);
-                    out.ever.insert(b);
+                    if let Some(r) = out.eff_result.last_mut() { *r = Some(b); }
+                    if out.ever.insert(b) { out.order.push(b); }
                     out.held[t].push(b);
                 }
                 (Some(Op::Alloc), Some(OpResult::Failed(_))) => {}
@@ -394,8 +400,21 @@ fn controlled_run<C: Cell>(
         true
     };
 
-    for &t in sched {
-        if t < n { turn(t, &mut out, &mut owner, watch); }
+    for &e in sched {
+        if e >= WHOLE_OP {
+            // 1000 + t: thread t runs until it is between operations again (finishes the operation it is in,
+            // or performs its next operation completely)
+            let t = e - WHOLE_OP;
+            if t < n {
+                let mut guard = 0;
+                loop {
+                    if !turn(t, &mut out, &mut owner, watch) { break; }
+                    let mid = { baton.m.lock().unwrap().mid[t] };
+                    guard += 1;
+                    if !mid || out.aborted || guard > 10_000 { break; }
+                }
+            }
+        } else if e < n { turn(e, &mut out, &mut owner, watch); }
         if out.aborted { break; }
     }
     // drain: run every thread to the end of its program, lowest id first
@@ -447,7 +466,7 @@ fn controlled_run<C: Cell>(
 // ------------------------------------------------------------------------------------------
 // cells
 // ------------------------------------------------------------------------------------------
-struct LfCell { pool: LockFreeMemoryPool, size: usize, base: usize }
+struct LfCell { pool: LockFreeMemoryPool, size: usize, base: usize, zero: bool }
 impl Cell for LfCell {
     type H = (NonNull<u8>, u64);
     fn alloc(&self) -> Result<(Self::H, u64), String> {
@@ -456,7 +475,9 @@ impl Cell for LfCell {
             Err(e) => Err(e.to_string()),
         }
     }
-    fn free(&self, h: Self::H) { let _ = self.pool.deallocate(h.0, self.size); }
+    fn free(&self, h: Self::H) {
+        let _ = if self.zero { self.pool.deallocate_with_zero(h.0, self.size) } else { self.pool.deallocate(h.0, self.size) };
+    }
     fn scribble(&self, h: &mut Self::H, v: u64) { unsafe { *(h.0.as_ptr() as *mut u32) = v as u32; } }
 }
 unsafe impl Send for LfCell {}
@@ -472,11 +493,15 @@ impl Cell for FlCell {
     fn scribble(&self, h: &mut Self::H, v: u64) { self.pool.verif_write_word(h.verif_raw(), v as u32); }
 }
 
-struct FcCell { pool: FixedCapacityMemoryPool, size: usize }
+struct FcCell { pool: FixedCapacityMemoryPool, sizes: Vec<usize> }
+impl FcCell {
+    fn size_of(&self, tid: usize) -> usize { self.sizes[tid % self.sizes.len()] }
+}
 impl Cell for FcCell {
     type H = FixedCapacityAllocation;
-    fn alloc(&self) -> Result<(Self::H, u64), String> {
-        match self.pool.allocate(self.size) {
+    fn alloc(&self) -> Result<(Self::H, u64), String> { self.alloc_t(0) }
+    fn alloc_t(&self, tid: usize) -> Result<(Self::H, u64), String> {
+        match self.pool.allocate(self.size_of(tid)) {
             Ok(a) => { let off = (a.as_ptr() as usize - self.pool.verif_base()) as u64; Ok((a, off)) }
             Err(e) => Err(e.to_string()),
         }
@@ -525,10 +550,22 @@ fn walk_free(head: u64, tail: u64, link: &dyn Fn(u64) -> Option<u64>, ever: &BTr
 struct Ctx {
     sum: Summary,
     shards: CoqShards,
-    coq_budget: usize,
+    coq_used: HashMap<&'static str, usize>,
     out: String,
     child_seq: usize,
     thorough: bool,
+}
+
+impl Ctx {
+    /// Coq cases are budgeted per cell so that every modelled cell is represented (quick: about 1500 in all).
+    fn room(&mut self, cell: &'static str, force: bool) -> bool {
+        let base = match cell { "LF" | "FL" => 300, "FC" => 280, "SP" => 280, "MP" => 200, "LZ" => 120, _ => 100 };
+        let budget = if self.thorough { base * 4 } else { base };
+        let used = self.coq_used.entry(cell).or_insert(0);
+        if !force && *used >= budget { return false; }
+        *used += 1;
+        true
+    }
 }
 
 fn progs_json(progs: &[Vec<Op>]) -> Vec<Vec<String>> { progs.iter().map(|p| p.iter().map(op_str).collect()).collect() }
@@ -557,21 +594,26 @@ fn parse_case(c: &Value) -> (String, usize, usize, Vec<Vec<Op>>, Vec<usize>) {
 fn norm_site(site: u32) -> u64 {
     // 11..16 / 31..35 -> 1..6 (pop), 21..24 / 41..44 -> 11..14 (push)
     let d = (site % 10) as u64;
-    match site / 10 { 1 | 3 | 5 | 7 => d, _ => 10 + d }
+    match site / 10 { 1 | 3 | 5 | 7 | 9 => d, _ => 10 + d }
 }
 
-fn emit_coq(cx: &mut Ctx, kind: u32, bsize: u64, cap: u64, n: usize, out: &RunOut, fin: [u64; 3], free: &Option<Vec<u64>>, cj: &Value, force: bool) {
-    if !force && cx.shards.len() >= cx.coq_budget { return; }
+fn emit_coq(cx: &mut Ctx, kind: u32, bsize: u64, cap: u64, n: usize, out: &RunOut, fin: [u64; 3], free: &Option<Vec<u64>>, stats: &[u64], zero_size: Option<u64>, cj: &Value, force: bool) {
     if out.eff.len() > 400 { return; }
-    let sc: Vec<String> = out.eff.iter().map(|(t, c)| format!("({}%nat, {})", t, cm_coq(c))).collect();
+    if !cx.room(if zero_size.is_some() { "LZ" } else if kind == 0 { "LF" } else { "FL" }, force) { return; }
+    let sc: Vec<String> = out.eff.iter().map(|(t, c)| format!("({}%nat, {})", t, match (c, zero_size) {
+        (Cm::Push(b), Some(z)) => format!("CPushZ {} {}", b, z),
+        _ => cm_coq(c),
+    })).collect();
     let notes: Vec<u128> = out.notes.iter().flat_map(|&(_, s, v)| vec![norm_site(s) as u128, v as u128]).collect();
     let helds: Vec<String> = out.held.iter().map(|h| coq_n_list(h.iter().map(|&x| x as u128))).collect();
-    let term = format!("({}, {}, {}, {}%nat, [{}], {}, {}, {}, [{}])",
+    let term = format!("XTag2 (({}, {}, {}, {}%nat, [{}], {}, {}, {}, [{}]), {})",
         kind, bsize, cap, n, sc.join("; "), coq_n_list(notes), coq_n_list(fin.iter().map(|&x| x as u128)),
-        coq_opt(free.as_ref().map(|f| coq_n_list(f.iter().map(|&x| x as u128)))), helds.join("; "));
+        coq_opt(free.as_ref().map(|f| coq_n_list(f.iter().map(|&x| x as u128)))), helds.join("; "),
+        coq_n_list(stats.iter().map(|&x| x as u128)));
     let mut c2 = cj.clone();
     c2["impl_final"] = json!(fin.to_vec());
     c2["impl_free"] = json!(free);
+    c2["impl_stats"] = json!(stats);
     cx.shards.push(term, c2);
 }
 
@@ -587,26 +629,29 @@ fn lf_slot_size(size: usize) -> usize {
     LF_BIN_SIZES.iter().cloned().find(|&b| a <= b).unwrap_or(a)
 }
 
-/// LockFreeMemoryPool under a controlled schedule.
-fn run_lf(cx: &mut Ctx, size: usize, slots: usize, progs: &[Vec<Op>], sched: &[usize], force: bool) {
+/// LockFreeMemoryPool under a controlled schedule.  `zero`: the pool is configured with zero_on_free and SIMD
+/// optimisation and every free goes through deallocate_with_zero (the block is scrubbed, then pushed).
+fn run_lf(cx: &mut Ctx, size: usize, slots: usize, zero: bool, progs: &[Vec<Op>], sched: &[usize], force: bool) {
     let cellname = "LockFreeMemoryPool/controlled";
     let bs = lf_slot_size(size);
     let cap = 8 + bs * slots;
-    let cj = case_json("LF", size, slots, progs, sched);
+    let mut cj = case_json("LF", size, slots, progs, sched);
+    if zero { cj["zero"] = json!(true); }
     cx.sum.eval(cellname, &cj.to_string(), progs.iter().filter(|p| !p.is_empty()).count() >= 2);
     let cfg = LockFreePoolConfig {
         memory_size: cap, enable_stats: true, max_cas_retries: 1000, backoff_strategy: BackoffStrategy::None,
         enable_cache_alignment: false, cache_config: None, enable_numa_awareness: false, enable_huge_pages: false,
-        huge_page_threshold: 1 << 30, enable_simd_optimization: false, zero_on_free: false,
+        huge_page_threshold: 1 << 30, enable_simd_optimization: zero, zero_on_free: zero,
     };
     let pool = match LockFreeMemoryPool::new(cfg) { Ok(p) => p, Err(e) => { cx.sum.fail(cellname, None, cj, &format!("pool creation failed: {}", e)); return; } };
     let base = pool.verif_layout().0;
-    let cell = Arc::new(LfCell { pool, size, base });
+    let cell = Arc::new(LfCell { pool, size, base, zero });
     let smap = ScribbleMap { tail: 0, base: 8, bsize: bs as u64, slots: slots as u64 };
     let c2 = cell.clone();
     let c3 = cell.clone();
     let mut fin = [0u64; 3];
     let mut free: Option<Vec<u64>> = None;
+    let mut stats: Vec<u64> = vec![];
     let mut inspect = |o: &RunOut| -> Vec<(Option<String>, String)> {
         let mut f = vec![];
         let (packed, count) = c2.pool.verif_bin_state(size).unwrap_or((0, 0));
@@ -625,18 +670,20 @@ fn run_lf(cx: &mut Ctx, size: usize, slots: usize, progs: &[Vec<Op>], sched: &[u
         if let Some(st) = c2.pool.stats() {
             let fa = st.fast_allocs.load(Ordering::SeqCst);
             let fd = st.fast_deallocs.load(Ordering::SeqCst);
+            stats = vec![fa, fd, st.cas_successes.load(Ordering::SeqCst), st.cas_failures.load(Ordering::SeqCst), st.memory_usage.load(Ordering::SeqCst)];
             if fd != o.frees { f.push((None, format!("fast_deallocs = {} after {} frees", fd, o.frees))); }
             let fresh = o.ever.len() as u64;
             if fa + fresh != o.allocs_ok { f.push((None, format!("fast_allocs {} + new blocks {} != successful allocations {}", fa, fresh, o.allocs_ok))); }
         }
         f
     };
-    let scr = move |b: u64, v: u64| unsafe { *((c3.base + b as usize) as *mut u32) = v as u32; };
+    let scr = move |b: u64, v: u64| -> u64 { unsafe { *((c3.base + b as usize) as *mut u32) = v as u32; } 0 };
     let out = controlled_run(cell.clone(), progs, sched, &smap, &mut NoWatch, &mut inspect, &scr);
     cx.sum.dist_max("max_steps_controlled", out.eff.len() as u64);
     if out.notes.iter().any(|&(_, s, v)| (s == vs::LF_POP_CAS || s == vs::LF_PUSH_CAS) && v == 0) { cx.sum.dist("runs_with_failed_cas"); }
     for (cl, d) in &out.fails { cx.sum.fail(cellname, cl.as_deref(), cj.clone(), d); }
-    if !out.aborted { emit_coq(cx, 0, bs as u64, cap as u64, progs.len(), &out, fin, &free, &cj, force); }
+    if zero { cx.sum.dist("lockfree_zero_on_free_runs"); }
+    if !out.aborted && !stats.is_empty() { emit_coq(cx, 0, bs as u64, cap as u64, progs.len(), &out, fin, &free, &stats, if zero { Some(size as u64) } else { None }, &cj, force); }
 }
 
 /// five-level LockFreePool under a controlled schedule.
@@ -657,12 +704,14 @@ fn run_fl(cx: &mut Ctx, size: usize, slots: usize, progs: &[Vec<Op>], sched: &[u
     let c3 = cell.clone();
     let mut fin = [0u64; 3];
     let mut free: Option<Vec<u64>> = None;
+    let mut fragv: Vec<u64> = vec![];
     let mut inspect = |o: &RunOut| -> Vec<(Option<String>, String)> {
         let mut f = vec![];
         let (packed, count) = c2.pool.verif_bin_state(size).unwrap_or((u32::MAX as u64, 0));
         let head = packed & 0xFFFF_FFFF;
         let used = c2.pool.stats().used_memory as u64;
         fin = [packed, count as u64, used];
+        fragv = vec![c2.pool.stats().fragment_size as u64];
         let owned: BTreeSet<u64> = o.held.iter().flatten().cloned().collect();
         let link = |x: u64| c2.pool.verif_read_link(x as u32).map(|v| v as u64);
         match walk_free(head as u64, u32::MAX as u64, &link, &o.ever, &owned, o.ever.len()) {
@@ -677,68 +726,113 @@ fn run_fl(cx: &mut Ctx, size: usize, slots: usize, progs: &[Vec<Op>], sched: &[u
         }
         f
     };
-    let scr = move |b: u64, v: u64| { c3.pool.verif_write_word(b as u32, v as u32); };
+    let scr = move |b: u64, v: u64| -> u64 { c3.pool.verif_write_word(b as u32, v as u32); 0 };
     let out = controlled_run(cell.clone(), progs, sched, &smap, &mut NoWatch, &mut inspect, &scr);
     cx.sum.dist_max("max_steps_controlled", out.eff.len() as u64);
     if out.notes.iter().any(|&(_, s, v)| (s == vs::FL_POP_CAS || s == vs::FL_PUSH_CAS) && v == 0) { cx.sum.dist("runs_with_failed_cas"); }
     for (cl, d) in &out.fails { cx.sum.fail(cellname, cl.as_deref(), cj.clone(), d); }
-    if !out.aborted { emit_coq(cx, 1, bs as u64, cap as u64, progs.len(), &out, fin, &free, &cj, force); }
+    if !out.aborted && !fragv.is_empty() { emit_coq(cx, 1, bs as u64, cap as u64, progs.len(), &out, fin, &free, &fragv, None, &cj, force); }
 }
 
-/// FixedCapacityMemoryPool under a controlled schedule (oracle only).
-fn run_fc(cx: &mut Ctx, size: usize, slots: usize, progs: &[Vec<Op>], sched: &[usize]) {
+/// Size classes of a FixedCapacityMemoryPool with max_block_size 64 and alignment 8: 8, 16, ..., 64.
+const FC_MAXB: usize = 64;
+const FC_NCLS: usize = 8;
+fn fc_class(size: usize) -> usize { (size.clamp(1, FC_MAXB) + 7) / 8 - 1 }
+
+/// FixedCapacityMemoryPool under a controlled schedule: the oracle, and every run is replayed on the
+/// model of coq/C08/ModelFixedCap.v (thread t asks for `sizes[t % len]` bytes, so several classes are in play).
+fn run_fc(cx: &mut Ctx, sizes: &[usize], clear: bool, slots: usize, progs: &[Vec<Op>], sched: &[usize], force: bool) {
     let cellname = "FixedCapacityMemoryPool/controlled";
-    let cj = case_json("FC", size, slots, progs, sched);
-    cx.sum.cell_status(cellname, "S-only");
+    let sizes: Vec<usize> = if sizes.is_empty() { vec![40] } else { sizes.iter().map(|&x| x.clamp(1, FC_MAXB)).collect() };
+    let mut cj = case_json("FC", sizes[0], slots, progs, sched);
+    cj["sizes"] = json!(sizes);
+    cj["clear"] = json!(clear);
+    cx.sum.cell_status(cellname, "M+S");
     cx.sum.eval(cellname, &cj.to_string(), progs.iter().filter(|p| !p.is_empty()).count() >= 2);
-    let maxb = 64usize;
-    let cfg = FixedCapacityPoolConfig { max_block_size: maxb, total_blocks: slots.max(1), alignment: 8, enable_stats: true, eager_allocation: true, secure_clear: false };
+    let maxb = FC_MAXB;
+    let cfg = FixedCapacityPoolConfig { max_block_size: maxb, total_blocks: slots.max(1), alignment: 8, enable_stats: true, eager_allocation: true, secure_clear: clear };
     let pool = match FixedCapacityMemoryPool::new(cfg) { Ok(p) => p, Err(e) => { cx.sum.fail(cellname, None, cj, &format!("pool creation failed: {}", e)); return; } };
-    let size = size.clamp(1, maxb);
-    let cell = Arc::new(FcCell { pool, size });
+    if pool.verif_num_classes() != FC_NCLS { cx.sum.fail(cellname, None, cj, &format!("the pool has {} size classes, 8 expected for max_block_size 64 / alignment 8", pool.verif_num_classes())); return; }
+    let cell = Arc::new(FcCell { pool, sizes: sizes.clone() });
     let smap = ScribbleMap { tail: u32::MAX as u64, base: 0, bsize: maxb as u64, slots: slots as u64 };
     let c2 = cell.clone();
     let c3 = cell.clone();
     let total = slots.max(1);
+    let mut fin: Vec<u64> = vec![];
+    let mut frees: Vec<Option<Vec<u64>>> = vec![];
+    let mut stats5: Vec<u64> = vec![];
     let mut inspect = |o: &RunOut| -> Vec<(Option<String>, String)> {
         let mut f = vec![];
         let owned: BTreeSet<u64> = o.held.iter().flatten().cloned().collect();
         let all: BTreeSet<u64> = (0..total as u64).map(|i| i * maxb as u64).collect();
         let link = |x: u64| c2.pool.verif_read_link(x as u32).map(|v| v as u64);
         let mut free_all: Vec<u64> = vec![];
+        let mut broken = false;
         for ci in 0..c2.pool.verif_num_classes() {
             let (packed, count) = c2.pool.verif_class_state(ci).unwrap_or((u32::MAX as u64, 0));
+            fin.push(packed);
+            fin.push(count as u64);
             match walk_free(packed & 0xFFFF_FFFF, u32::MAX as u64, &link, &all, &owned, total) {
                 Ok(l) => {
                     if l.len() as u64 != count as u64 { f.push((None, format!("class {} count = {} but its free list has {} blocks at quiescence", ci, count, l.len()))); }
-                    free_all.extend(l);
+                    free_all.extend(l.iter().cloned());
+                    frees.push(Some(l));
                 }
-                Err(e) => { f.push((None, format!("class {}: {}", ci, e))); return f; }
+                Err(e) => { f.push((None, format!("class {}: {}", ci, e))); frees.push(None); broken = true; }
             }
         }
-        let mut s = BTreeSet::new();
-        for b in &free_all { if !s.insert(*b) { f.push((None, format!("block {} is on two free lists", b))); } }
-        for b in &all { if !owned.contains(b) && !s.contains(b) { f.push((None, format!("block {} is neither owned nor on a free list: lost", b))); } }
+        if !broken {
+            let mut s = BTreeSet::new();
+            for b in &free_all { if !s.insert(*b) { f.push((None, format!("block {} is on two free lists", b))); } }
+            for b in &all { if !owned.contains(b) && !s.contains(b) { f.push((None, format!("block {} is neither owned nor on a free list: lost", b))); } }
+        }
         if let Some(st) = c2.pool.stats() {
             let a = st.allocations.load(Ordering::SeqCst);
             let d = st.deallocations.load(Ordering::SeqCst);
             let act = st.active_blocks.load(Ordering::SeqCst) as u64;
+            stats5 = vec![a, d, act, st.peak_blocks.load(Ordering::SeqCst) as u64, st.allocation_failures.load(Ordering::SeqCst)];
             if a != o.allocs_ok || d != o.frees || act != owned.len() as u64 {
                 f.push((None, format!("stats allocations={} deallocations={} active={} but {} allocations, {} frees, {} live", a, d, act, o.allocs_ok, o.frees, owned.len())));
             }
         }
         f
     };
-    let scr = move |b: u64, v: u64| {
+    // the owner overwrites the header words of its block: all four, or (odd slot values) only the link word, so
+    // that a stale reader can also meet an intact magic number with a wrong link
+    let bsz = maxb as u64;
+    let scr = move |b: u64, v: u64| -> u64 {
         let p = (c3.pool.verif_base() + b as usize) as *mut u32;
-        unsafe { for i in 0..4 { *p.add(i) = v as u32; } }
+        let only_link = v != u32::MAX as u64 && (v / bsz) % 2 == 1;
+        unsafe {
+            if only_link { *p.add(2) = v as u32; } else { for i in 0..4 { *p.add(i) = v as u32; } }
+            *p.add(1) as u64
+        }
     };
     let out = controlled_run(cell.clone(), progs, sched, &smap, &mut NoWatch, &mut inspect, &scr);
     cx.sum.dist_max("max_steps_controlled", out.eff.len() as u64);
-    for (cl, d) in &out.fails {
-        let cl2 = cl.clone().or_else(|| None);
-        cx.sum.fail(cellname, cl2.as_deref(), cj.clone(), d);
-    }
+    if out.notes.iter().any(|&(_, s, v)| (s == vs::FC_POP_CAS || s == vs::FC_PUSH_CAS) && v == 0) { cx.sum.dist("runs_with_failed_cas"); }
+    if out.notes.iter().any(|&(_, s, _)| s == vs::FC_SPLIT_PEEK) { cx.sum.dist("fc_runs_with_splitting"); }
+    for (cl, d) in &out.fails { cx.sum.fail(cellname, cl.as_deref(), cj.clone(), d); }
+    if out.aborted || out.eff.len() > 400 || fin.is_empty() || stats5.is_empty() { return; }
+    if !cx.room("FC", force) { return; }
+    let cls = |t: usize| fc_class(sizes[t % sizes.len()]);
+    let sc: Vec<String> = out.eff.iter().map(|(t, c)| format!("({}%nat, {})", t, match c {
+        Cm::None => "FNone".to_string(),
+        Cm::Pop => format!("FPop {}%nat", cls(*t)),
+        Cm::Push(b) => format!("FPush {} {}%nat", b, cls(*t)),
+        Cm::Scr(b, v, m) => format!("FScribble {} {} {}", b, m, v),
+    })).collect();
+    let notes: Vec<u128> = out.notes.iter().flat_map(|&(_, s, v)| vec![norm_site(s) as u128, v as u128]).collect();
+    let helds: Vec<String> = out.held.iter().map(|h| coq_n_list(h.iter().map(|&x| x as u128))).collect();
+    let frs: Vec<String> = frees.iter().map(|f| coq_opt(f.as_ref().map(|f| coq_n_list(f.iter().map(|&x| x as u128))))).collect();
+    let term = format!("XFC ({}%nat, {}, {}, {}, {}%nat, [{}], {}, {}, [{}], [{}], {})",
+        FC_NCLS, maxb, total, coq_bool(clear), progs.len(), sc.join("; "), coq_n_list(notes),
+        coq_n_list(fin.iter().map(|&x| x as u128)), frs.join("; "), helds.join("; "), coq_n_list(stats5.iter().map(|&x| x as u128)));
+    let mut c2j = cj.clone();
+    c2j["impl_final"] = json!(fin);
+    c2j["impl_free"] = json!(frees);
+    c2j["impl_stats"] = json!(stats5);
+    cx.shards.push(term, c2j);
 }
 
 /// Monitor of the secure pool's Treiber stack: keeps the abstract stack from the hook notes.
@@ -796,13 +890,18 @@ impl Watch for SharedWatch {
     fn on_note(&mut self, tid: usize, site: u32, val: u64) -> Option<(String, String)> { self.0.lock().unwrap().on_note(tid, site, val) }
 }
 
-/// SecureMemoryPool (thread-local cache of one chunk in front of the shared Treiber stack), oracle only.
-fn run_sp(cx: &mut Ctx, cache: usize, progs: &[Vec<Op>], sched: &[usize]) {
+/// SecureMemoryPool (thread-local caches in front of the shared Treiber stack): the oracle, and every run that is
+/// not cut short by one of the recorded stack findings is replayed on the model of coq/C08/ModelSecure.v.
+/// `preset` 0: SecurePoolConfig::new(64, 100, 8); 1: small_secure() (batch_size 16) - both with the given
+/// local_cache_size, so that local_cache_size < batch_size - 1 and chunks spill to the shared stack.
+fn run_sp(cx: &mut Ctx, cache: usize, preset: u64, progs: &[Vec<Op>], sched: &[usize], force: bool) {
     let cellname = "SecureMemoryPool/controlled";
-    let cj = case_json("SP", cache, 0, progs, sched);
-    cx.sum.cell_status(cellname, "S-only");
+    let mut cj = case_json("SP", cache, 0, progs, sched);
+    if preset != 0 { cj["preset"] = json!(preset); }
+    cx.sum.cell_status(cellname, "M+S");
     cx.sum.eval(cellname, &cj.to_string(), progs.iter().filter(|p| !p.is_empty()).count() >= 2);
-    let cfg = SecurePoolConfig::new(64, 100, 8).with_local_cache_size(cache).with_cache_alignment(false)
+    let base = if preset == 1 { SecurePoolConfig::small_secure() } else { SecurePoolConfig::new(64, 100, 8) };
+    let cfg = base.with_local_cache_size(cache).with_cache_alignment(false)
         .with_cache_config(None).with_numa_awareness(false).with_hot_cold_separation(false).with_huge_pages(false).with_simd_ops(false);
     let pool = match SecureMemoryPool::new(cfg) { Ok(p) => p, Err(e) => { cx.sum.fail(cellname, None, cj, &format!("pool creation failed: {}", e)); return; } };
     let cell = Arc::new(SpCell { pool: pool.clone() });
@@ -810,6 +909,8 @@ fn run_sp(cx: &mut Ctx, cache: usize, progs: &[Vec<Op>], sched: &[usize]) {
     let w = Arc::new(Mutex::new(SpWatch { live: BTreeSet::new(), stack: vec![], loaded: HashMap::new(), read_next: HashMap::new(), push_node: HashMap::new() }));
     let w2 = w.clone();
     let p2 = pool.clone();
+    let mut stack_chunks: Option<Vec<u64>> = None;
+    let mut counters: Vec<u64> = vec![];
     let mut inspect = |o: &RunOut| -> Vec<(Option<String>, String)> {
         let mut f = vec![];
         let w = w2.lock().unwrap();
@@ -844,15 +945,20 @@ fn run_sp(cx: &mut Ctx, cache: usize, progs: &[Vec<Op>], sched: &[usize]) {
         if st.pool_hits + st.pool_misses != st.alloc_count { f.push((None, format!("pool_hits {} + pool_misses {} != alloc_count {}", st.pool_hits, st.pool_misses, st.alloc_count))); }
         if p2.verif_active_len() != owned.len() { f.push((None, format!("active-allocation table has {} entries, {} chunks are live", p2.verif_active_len(), owned.len()))); }
         if let Err(e) = p2.validate() { f.push((None, format!("validate() fails at quiescence: {}", e))); }
+        stack_chunks = Some(in_stack);
+        counters = vec![st.alloc_count, st.dealloc_count, st.pool_hits, st.pool_misses, st.local_cache_hits, st.cross_thread_steals,
+                        st.double_free_detected, p2.verif_active_len() as u64];
         f
     };
-    let scr = |_b: u64, _v: u64| {};
+    let scr = |_b: u64, _v: u64| -> u64 { 0 };
     let out = controlled_run(cell.clone(), progs, sched, &smap, &mut SharedWatch(w.clone()), &mut inspect, &scr);
     if std::env::var("ZV_C08_DEBUG").is_ok() {
         for (t, s, v) in &out.notes { eprintln!("note t{} site {} val {:#x}", t, s, v); }
         eprintln!("held {:x?} exit_info {:x?} eff {}", out.held, out.exit_info, out.eff.len());
     }
     cx.sum.dist_max("max_steps_controlled", out.eff.len() as u64);
+    if out.notes.iter().any(|&(_, s, _)| s == vs::SP_PUSH_CAS) { cx.sum.dist("secure_runs_with_spill_to_stack"); }
+    if out.notes.iter().any(|&(_, s, v)| s == vs::SP_POP_CAS && v == 1) { cx.sum.dist("secure_runs_with_refill_from_stack"); }
     for (cl, d) in &out.fails {
         let class = match cl.as_deref() {
             Some(c) => Some(c.to_string()),
@@ -860,6 +966,126 @@ fn run_sp(cx: &mut Ctx, cache: usize, progs: &[Vec<Op>], sched: &[usize]) {
         };
         cx.sum.fail(cellname, class.as_deref(), cj.clone(), d);
     }
+    // Coq case: chunks are named by their serial number (order of creation = order of first appearance)
+    if out.aborted || out.eff.len() > 400 || counters.is_empty() { return; }
+    let stack_chunks = match stack_chunks { Some(x) => x, None => return };
+    if !cx.room("SP", force) { return; }
+    let serial: HashMap<u64, u64> = out.order.iter().enumerate().map(|(i, &a)| (a, i as u64)).collect();
+    let ser = |a: &u64| -> u128 { serial.get(a).cloned().unwrap_or(u64::MAX) as u128 };
+    let sc: Vec<String> = out.eff.iter().enumerate().map(|(i, (t, c))| format!("({}%nat, {})", t, match c {
+        Cm::Pop => "SAlloc".to_string(),
+        Cm::Push(b) => {
+            // the node address the allocator returned, if this free spilled to the shared stack
+            let from = out.eff_notes[i];
+            let a = out.notes[from..].iter().find(|&&(tt, s, _)| tt == *t && s == vs::SP_PUSH_NEXT).map(|&(_, _, v)| v).unwrap_or(0);
+            format!("SFree {} {}", ser(b), a)
+        }
+        _ => "SNone".to_string(),
+    })).collect();
+    let notes: Vec<u128> = out.notes.iter().flat_map(|&(_, s, v)| vec![norm_site(s) as u128, v as u128]).collect();
+    let helds: Vec<String> = out.held.iter().map(|h| coq_n_list(h.iter().map(&ser))).collect();
+    // LocalCache.chunks is a Vec used as a stack: the model lists the top first
+    let caches: Vec<String> = out.exit_info.iter().map(|c| coq_n_list(c.iter().rev().map(&ser))).collect();
+    let term = format!("XSP ({}, {}%nat, [{}], {}, Some {}, [{}], [{}], {})",
+        cache, progs.len(), sc.join("; "), coq_n_list(notes), coq_n_list(stack_chunks.iter().map(&ser)),
+        helds.join("; "), caches.join("; "), coq_n_list(counters.iter().map(|&x| x as u128)));
+    let mut c2 = cj.clone();
+    c2["impl_counters"] = json!(counters);
+    c2["impl_stack_len"] = json!(stack_chunks.len());
+    cx.shards.push(term, c2);
+}
+
+struct MpCell { pool: MemoryPool, csize: usize }
+impl Cell for MpCell {
+    type H = NonNull<u8>;
+    fn alloc(&self) -> Result<(Self::H, u64), String> {
+        match self.pool.allocate() { Ok(p) => Ok((p, p.as_ptr() as usize as u64)), Err(e) => Err(e.to_string()) }
+    }
+    fn free(&self, h: Self::H) { let _ = self.pool.deallocate(h); }
+    fn scribble(&self, h: &mut Self::H, v: u64) { unsafe { std::ptr::write_bytes(h.as_ptr(), v as u8, self.csize); } }
+}
+unsafe impl Send for MpCell {}
+unsafe impl Sync for MpCell {}
+
+/// MemoryPool (pool.rs) under a controlled schedule: threads are parked before try_lock, under the queue lock,
+/// before the miss / direct-release paths and before the byte accounting.  Oracle: ownership, and at quiescence the
+/// byte accounting, the counters, the capacity and the pooled chunks; every run is replayed on coq/C08/ModelMemPool.v.
+fn run_mp(cx: &mut Ctx, csize: usize, maxc: usize, progs: &[Vec<Op>], sched: &[usize], force: bool) {
+    let cellname = "MemoryPool/controlled";
+    let cj = case_json("MP", csize, maxc, progs, sched);
+    cx.sum.cell_status(cellname, "M+S");
+    cx.sum.eval(cellname, &cj.to_string(), progs.iter().filter(|p| !p.is_empty()).count() >= 2);
+    let pool = match MemoryPool::new(PoolConfig::new(csize, maxc, 8)) { Ok(p) => p, Err(e) => { cx.sum.fail(cellname, None, cj, &format!("pool creation failed: {}", e)); return; } };
+    let cell = Arc::new(MpCell { pool, csize });
+    let smap = ScribbleMap { tail: 0, base: 0, bsize: 1, slots: 256 };
+    let c2 = cell.clone();
+    let mut queue: Option<Vec<u64>> = None;
+    let mut counters: Vec<u64> = vec![];
+    let mut inspect = |o: &RunOut| -> Vec<(Option<String>, String)> {
+        let mut f = vec![];
+        let owned: BTreeSet<u64> = o.held.iter().flatten().cloned().collect();
+        let st = c2.pool.stats();
+        let q: Option<Vec<u64>> = c2.pool.verif_free_chunks().map(|v| v.into_iter().map(|x| x as u64).collect());
+        match &q {
+            None => f.push((None, "the queue lock is still held at quiescence".into())),
+            Some(q) => {
+                let mut seen = BTreeSet::new();
+                for b in q {
+                    if !seen.insert(*b) { f.push((None, format!("chunk {:#x} is pooled twice", b))); }
+                    if owned.contains(b) { f.push((None, format!("chunk {:#x} is pooled while a thread owns it", b))); }
+                }
+                if q.len() > maxc { f.push((None, format!("{} chunks pooled, max_chunks is {}", q.len(), maxc))); }
+                let alive = (q.len() + owned.len()) as u64;
+                if st.allocated != alive * csize as u64 {
+                    f.push((None, format!("stats.allocated = {} bytes but {} chunks of {} bytes are alive ({} pooled, {} held) at quiescence", st.allocated, alive, csize, q.len(), owned.len())));
+                }
+            }
+        }
+        if st.alloc_count != o.alloc_calls || st.dealloc_count != o.frees {
+            f.push((None, format!("alloc_count={} dealloc_count={} after {} allocate calls and {} frees", st.alloc_count, st.dealloc_count, o.alloc_calls, o.frees)));
+        }
+        if st.pool_hits + st.pool_misses != st.alloc_count { f.push((None, format!("pool_hits {} + pool_misses {} != alloc_count {}", st.pool_hits, st.pool_misses, st.alloc_count))); }
+        counters = vec![st.allocated, st.alloc_count, st.dealloc_count, st.pool_hits, st.pool_misses, if q.is_none() { 1 } else { 0 }];
+        queue = q;
+        f
+    };
+    let scr = |_b: u64, _v: u64| -> u64 { 0 };
+    let out = controlled_run(cell.clone(), progs, sched, &smap, &mut NoWatch, &mut inspect, &scr);
+    cx.sum.dist_max("max_steps_controlled", out.eff.len() as u64);
+    if out.notes.iter().any(|&(_, s, v)| (s == vs::MP_ALLOC_LOCK || s == vs::MP_FREE_LOCK) && v == 0) { cx.sum.dist("mempool_runs_with_busy_lock"); }
+    if out.eff_site.iter().any(|s| *s == Some(vs::MP_FREE_DIRECT)) { cx.sum.dist("mempool_runs_with_direct_release"); }
+    for (cl, d) in &out.fails { cx.sum.fail(cellname, cl.as_deref(), cj.clone(), d); }
+    if out.aborted || out.eff.len() > 400 || counters.is_empty() { return; }
+    let queue = match queue { Some(q) => q, None => return };
+    if !cx.room("MP", force) { return; }
+    // chunks are named by serial numbers in order of creation (the turn that passes the miss point); the system
+    // allocator may return the address of a released chunk again, so the address -> serial map is updated
+    let mut next_serial = 0u64;
+    let mut pending: Vec<Option<u64>> = vec![None; progs.len()];
+    let mut cur: HashMap<u64, u64> = HashMap::new();
+    let mut sc: Vec<String> = vec![];
+    for (i, (t, c)) in out.eff.iter().enumerate() {
+        if out.eff_site[i] == Some(vs::MP_ALLOC_MISS) { pending[*t] = Some(next_serial); next_serial += 1; }
+        let cmd = match c {
+            Cm::Pop => "MAlloc".to_string(),
+            Cm::Push(b) => format!("MFree {}", cur.get(b).cloned().unwrap_or(u64::MAX)),
+            _ => "MNone".to_string(),
+        };
+        sc.push(format!("({}%nat, {})", t, cmd));
+        if let Some(addr) = out.eff_result[i] {
+            if let Some(ser) = pending[*t].take() { cur.insert(addr, ser); }
+        }
+    }
+    let ser = |a: &u64| -> u128 { cur.get(a).cloned().unwrap_or(u64::MAX) as u128 };
+    let notes: Vec<u128> = out.notes.iter().flat_map(|&(_, s, v)| vec![norm_site(s) as u128, v as u128]).collect();
+    let helds: Vec<String> = out.held.iter().map(|h| coq_n_list(h.iter().map(&ser))).collect();
+    let term = format!("XMP ({}, {}, {}%nat, [{}], {}, {}, [{}], {})",
+        csize, maxc, progs.len(), sc.join("; "), coq_n_list(notes), coq_n_list(queue.iter().map(&ser)), helds.join("; "),
+        coq_n_list(counters.iter().map(|&x| x as u128)));
+    let mut c2j = cj.clone();
+    c2j["impl_counters"] = json!(counters);
+    c2j["impl_pooled"] = json!(queue.len());
+    cx.shards.push(term, c2j);
 }
 
 fn run_case(cx: &mut Ctx, c: &Value, force: bool) {
@@ -870,10 +1096,15 @@ fn run_case(cx: &mut Ctx, c: &Value, force: bool) {
     let (cell, size, slots, progs, sched) = parse_case(c);
     if progs.is_empty() { return; }
     match cell.as_str() {
-        "LF" => run_lf(cx, size.clamp(1, 8192), slots.clamp(1, 64), &progs, &sched, force),
+        "LF" => run_lf(cx, size.clamp(1, 8192), slots.clamp(1, 64), c["zero"].as_bool().unwrap_or(false), &progs, &sched, force),
         "FL" => run_fl(cx, size.clamp(1, 1024), slots.clamp(1, 64), &progs, &sched, force),
-        "FC" => run_fc(cx, size, slots.clamp(1, 64), &progs, &sched),
-        "SP" => run_sp(cx, size.clamp(1, 8), &progs, &sched),
+        "FC" => {
+            let sizes: Vec<usize> = c["sizes"].as_array().map(|a| a.iter().filter_map(|x| x.as_u64().map(|v| v as usize)).collect()).unwrap_or_default();
+            let sizes = if sizes.is_empty() { vec![size] } else { sizes };
+            run_fc(cx, &sizes, c["clear"].as_bool().unwrap_or(false), slots.clamp(1, 64), &progs, &sched, force)
+        }
+        "MP" => run_mp(cx, size.clamp(1, 4096), slots.clamp(0, 64), &progs, &sched, force),
+        "SP" => run_sp(cx, size.clamp(1, 8), c["preset"].as_u64().unwrap_or(0), &progs, &sched, force),
         _ => {}
     }
 }
@@ -1001,7 +1232,7 @@ fn stress_case_inproc(cx: &mut Ctx, c: &Value) {
     cx.sum.cell_status(&cell, "S-only");
     cx.sum.eval(&cell, &c.to_string(), nthr >= 2);
     let fails: Vec<String> = match cell.as_str() {
-        "stress/LockFreeMemoryPool" => stress_lf(nthr, iters, seed, size, hold),
+        "stress/LockFreeMemoryPool" => stress_lf(nthr, iters, seed, size, hold, c["zero"].as_bool().unwrap_or(false)),
         "stress/five_level::LockFreePool" => stress_fl(nthr, iters, seed, size, hold, 0),
         "stress/five_level::MutexBasedPool" => stress_fl(nthr, iters, seed, size, hold, 1),
         "stress/five_level::ThreadLocalPool" => stress_fl(nthr, iters, seed, size, hold, 2),
@@ -1036,13 +1267,15 @@ fn classify_stress(cell: &str, d: &str) -> Option<&'static str> {
     None
 }
 
-fn stress_lf(nthr: usize, iters: usize, seed: u64, size: usize, hold: usize) -> Vec<String> {
+fn stress_lf(nthr: usize, iters: usize, seed: u64, size: usize, hold: usize, zero: bool) -> Vec<String> {
     let bs = lf_slot_size(size);
     let cap = 8 + bs * (nthr * hold + 2);
     let cfg = LockFreePoolConfig { memory_size: cap, enable_stats: true, max_cas_retries: 100_000, backoff_strategy: BackoffStrategy::None,
         enable_cache_alignment: false, cache_config: None, enable_numa_awareness: false, enable_huge_pages: false, huge_page_threshold: 1 << 30,
-        enable_simd_optimization: false, zero_on_free: false };
+        enable_simd_optimization: zero, zero_on_free: zero };
     let pool = Arc::new(match LockFreeMemoryPool::new(cfg) { Ok(p) => p, Err(e) => return vec![format!("pool creation failed: {}", e)] });
+    // zero: every free goes through deallocate_with_zero (scrub, then push)
+    let give_back = move |p2: &LockFreeMemoryPool, p: NonNull<u8>| { let _ = if zero { p2.deallocate_with_zero(p, size) } else { p2.deallocate(p, size) }; };
     let base = pool.verif_layout().0;
     let own = Arc::new(Ownership::new(cap / 8 + 1));
     let okc = Arc::new(AtomicU64::new(0));
@@ -1065,10 +1298,10 @@ fn stress_lf(nthr: usize, iters: usize, seed: u64, size: usize, hold: usize) -> 
                 if s.iter().any(|&b| b != t as u8 + 1) { o2.clash.store(true, Ordering::SeqCst); *o2.detail.lock().unwrap() = format!("block contents of thread {} overwritten while it owned the block", t); }
                 o2.give((p.as_ptr() as usize - base) / 8, t);
                 fr2.fetch_add(1, Ordering::Relaxed);
-                let _ = p2.deallocate(p, size);
+                give_back(&p2, p);
             }
         }
-        for p in held { o2.give((p.as_ptr() as usize - base) / 8, t); fr2.fetch_add(1, Ordering::Relaxed); let _ = p2.deallocate(p, size); }
+        for p in held { o2.give((p.as_ptr() as usize - base) / 8, t); fr2.fetch_add(1, Ordering::Relaxed); give_back(&p2, p); }
     });
     let mut f = vec![];
     if let Err(e) = r { f.push(e); }
@@ -1389,9 +1622,9 @@ fn stress_gp(nthr: usize, iters: usize, seed: u64, hold: usize) -> Vec<String> {
 pub fn run(args: &Args) {
     if std::env::var("ZV_C08_DEBUG").is_ok() { let _ = std::panic::take_hook(); }
     let mut cx = Ctx {
-        sum: Summary::new("C08", "controlled schedules (real threads parked at every schedule point of the zipora_verif hooks): corpus witnesses, every interleaving of two threads x one operation on a pre-filled free list, every interleaving of short pop/push pairs, then random programs of 2-3 threads (alloc / free k-th held / owner overwrites the link word / foreign malloc) under burst-biased random schedules, block size and arena size varied so that exhaustion and reuse occur; free-running stress with an ownership table for every pool; a case is non-trivial when at least two threads execute operations; distinct = distinct (cell, programs, schedule)"),
+        sum: Summary::new("C08", "controlled schedules (real threads parked at every schedule point of the zipora_verif hooks): corpus witnesses, every interleaving of two threads x one operation on a pre-filled free list, every interleaving of short pop/push pairs, stalled-operation windows (one thread stops after k steps of an operation while another runs a whole program that drains and refills the list), LockFreeMemoryPool with zero_on_free through deallocate_with_zero (three and more blocks of a class freed and reallocated), SecureMemoryPool with local_cache_size < batch_size - 1 spilling to the shared stack and refilling another thread, MemoryPool with a thread parked under the queue lock, then random programs of 2-3 threads (alloc / free k-th held / owner overwrites the link word or header / foreign malloc; per-thread request sizes for the fixed-capacity pool) under burst-biased random schedules, block size and arena size varied so that exhaustion and reuse occur; free-running stress with an ownership table for every pool; a case is non-trivial when at least two threads execute operations; distinct = distinct (cell, programs, schedule)"),
         shards: CoqShards::new(HEADER, 250),
-        coq_budget: if args.thorough { 6000 } else { 1500 },
+        coq_used: HashMap::new(),
         out: args.out.clone(), child_seq: 0, thorough: args.thorough,
     };
     if let Some(f) = &args.replay {
@@ -1438,11 +1671,90 @@ pub fn run(args: &Args) {
             // lockfree_pool.rs carves with load + compare-exchange: one more step per fresh block
             let mut sched_lf = vec![0usize; 3];
             sched_lf.extend(&sched);
-            run_lf(&mut cx, 64, 6, &[p0.clone(), p1.clone()], &sched_lf, false);
+            run_lf(&mut cx, 64, 6, false, &[p0.clone(), p1.clone()], &sched_lf, false);
             run_fl(&mut cx, 64, 6, &[p0.clone(), p1.clone()], &sched, false);
-            if i % (stride * 3) == 0 { run_fc(&mut cx, 40, 4, &[vec![Op::Alloc, Op::Alloc, Op::Free(0), Op::Free(0), Op::Alloc], p1.clone()], &sched[10..]); }
+            if i % (stride * 3) == 0 { run_fc(&mut cx, if i % 2 == 0 { &[40] } else { &[40, 17] }, false, 4, &[vec![Op::Alloc, Op::Alloc, Op::Free(0), Op::Free(0), Op::Alloc], p1.clone()], &sched[10..], false); }
         }
         cx.sum.dist_max("enumerated_interleavings", (all.len() / stride) as u64);
+    }
+    // 2b. stalled-operation windows: thread 0 prepares a free list, starts an operation and stops after k steps;
+    //     thread 1 then runs a whole program (drain and refill of the list, random programs); thread 0 finishes.
+    //     This is where a stale (head, link) pair meets a list that was emptied and rebuilt.
+    {
+        let nwin = if args.thorough { 60 } else { 10 };
+        for w in 0..nwin {
+            let p0 = vec![Op::Alloc, Op::Alloc, Op::Free(1), Op::Free(0), if w % 3 == 2 { Op::Free(0) } else { Op::Alloc }, Op::Alloc];
+            let p1: Vec<Op> = match w % 5 {
+                0 => vec![Op::Alloc, Op::Alloc, Op::Alloc, Op::Free(2), Op::Free(0)],
+                1 => vec![Op::Alloc, Op::Alloc, Op::Free(1), Op::Alloc, Op::Free(0), Op::Free(0)],
+                _ => gen_prog(&mut rng, 6, false, 6),
+            };
+            let nsetup = if w % 3 == 2 { 3 } else { 4 };
+            for k in 1..=4usize {
+                let mut sched = vec![WHOLE_OP; nsetup];
+                sched.extend(std::iter::repeat(0).take(k));
+                sched.extend(std::iter::repeat(WHOLE_OP + 1).take(p1.len()));
+                let progs = [p0.clone(), p1.clone()];
+                run_lf(&mut cx, 64, 6, false, &progs, &sched, false);
+                run_fl(&mut cx, 64, 6, &progs, &sched, false);
+                run_fc(&mut cx, if w % 2 == 0 { &[40] } else { &[40, 40, 17] }, false, 6, &progs, &sched, false);
+                if w % 2 == 1 { run_lf(&mut cx, 24, 6, true, &progs, &sched, false); }
+                cx.sum.dist("stalled_operation_windows");
+            }
+        }
+    }
+    // 2c. LockFreeMemoryPool with zero_on_free + SIMD optimisation, frees through deallocate_with_zero: three and more
+    //     blocks of one class are freed and allocated again (the scrub must not reach a block that is already listed)
+    {
+        let refill = vec![Op::Alloc, Op::Alloc, Op::Alloc, Op::Free(0), Op::Free(0), Op::Free(0), Op::Alloc, Op::Alloc, Op::Alloc, Op::Free(1), Op::Alloc];
+        for &size in &[1usize, 3, 24, 64, 200] {
+            run_lf(&mut cx, size, 6, true, &[refill.clone()], &[], false);
+            let p1 = vec![Op::Alloc, Op::Alloc, Op::Free(0), Op::Free(0), Op::Alloc, Op::Alloc, Op::Free(1)];
+            let reps = if args.thorough { 12 } else { 3 };
+            for _ in 0..reps {
+                let sched = gen_sched(&mut rng, 2, 90);
+                run_lf(&mut cx, size, 8, true, &[refill.clone(), p1.clone()], &sched, false);
+            }
+        }
+    }
+    // 2d. SecureMemoryPool with local_cache_size < batch_size - 1 (both presets): one thread fills its cache and
+    //     spills the surplus to the shared stack, another thread refills from there; also the stalled-pop window
+    {
+        let filler = vec![Op::Alloc, Op::Alloc, Op::Alloc, Op::Alloc, Op::Alloc, Op::Alloc, Op::Free(0), Op::Free(0), Op::Free(0), Op::Free(0), Op::Free(0), Op::Free(0), Op::Alloc];
+        let taker = vec![Op::Alloc, Op::Alloc, Op::Alloc, Op::Free(0), Op::Free(1), Op::Alloc, Op::Free(0)];
+        for &(cache, preset) in &[(1usize, 0u64), (4, 1), (2, 1), (4, 0)] {
+            let mut sched: Vec<usize> = vec![WHOLE_OP; 12];
+            sched.extend(std::iter::repeat(WHOLE_OP + 1).take(taker.len()));
+            run_sp(&mut cx, cache, preset, &[filler.clone(), taker.clone()], &sched, false);
+            let reps = if args.thorough { 10 } else { 3 };
+            for _ in 0..reps {
+                let sched = gen_sched(&mut rng, 2, 120);
+                run_sp(&mut cx, cache, preset, &[filler.clone(), taker.clone()], &sched, false);
+            }
+            for k in 1..=3usize {
+                let p0 = vec![Op::Alloc, Op::Alloc, Op::Alloc, Op::Free(0), Op::Free(0), Op::Free(0), Op::Alloc, Op::Alloc, Op::Alloc];
+                let mut sched: Vec<usize> = vec![WHOLE_OP; 6 + cache.min(2)];
+                sched.extend(std::iter::repeat(0).take(k));
+                sched.extend(std::iter::repeat(WHOLE_OP + 1).take(3));
+                run_sp(&mut cx, cache, preset, &[p0, vec![Op::Alloc, Op::Free(0), Op::Alloc]], &sched, false);
+            }
+        }
+    }
+    // 2e. MemoryPool: a thread stalled while it holds the queue lock (others find it busy: fresh chunk / direct
+    //     release), a full pool, and the byte accounting of both
+    {
+        let p0 = vec![Op::Alloc, Op::Alloc, Op::Free(0), Op::Free(0), Op::Alloc, Op::Free(0)];
+        let p1 = vec![Op::Alloc, Op::Free(0), Op::Alloc, Op::Alloc, Op::Free(1), Op::Free(0)];
+        for &maxc in &[0usize, 1, 2] {
+            for k in 0..=3usize {
+                for pre in [2usize, 3, 4] {
+                    let mut sched: Vec<usize> = vec![WHOLE_OP; pre];
+                    sched.extend(std::iter::repeat(0).take(k));
+                    sched.extend(std::iter::repeat(WHOLE_OP + 1).take(p1.len()));
+                    run_mp(&mut cx, 64, maxc, &[p0.clone(), p1.clone()], &sched, false);
+                }
+            }
+        }
     }
     // 3. random programs and schedules
     let nrand = if args.thorough { 6000 } else { 800 };
@@ -1453,13 +1765,20 @@ pub fn run(args: &Args) {
         let plen = rng.range(2, 9) as usize;
         let progs: Vec<Vec<Op>> = (0..n).map(|_| gen_prog(&mut rng, plen, false, slots)).collect();
         let sched = gen_sched(&mut rng, n, plen * 6 * n);
-        match k % 4 {
-            0 => run_lf(&mut cx, size, slots, &progs, &sched, false),
+        match k % 5 {
+            4 => {
+                let progs: Vec<Vec<Op>> = (0..n).map(|_| gen_prog(&mut rng, plen + 2, false, slots)).collect();
+                run_mp(&mut cx, *rng.pick(&[8usize, 64, 100]), *rng.pick(&[0usize, 1, 2, 3]), &progs, &sched, false)
+            }
+            0 => run_lf(&mut cx, size, slots, k % 12 == 8, &progs, &sched, false),
             1 => run_fl(&mut cx, size.min(1000), slots, &progs, &sched, false),
-            2 => run_fc(&mut cx, size.min(64), slots, &progs, &sched),
+            2 => {
+                let sizes: Vec<usize> = match rng.below(3) { 0 => vec![size.min(64)], 1 => vec![size.min(64), *rng.pick(&[1usize, 9, 24, 64])], _ => vec![*rng.pick(&[8usize, 16]), *rng.pick(&[17usize, 33]), *rng.pick(&[50usize, 64])] };
+                run_fc(&mut cx, &sizes, rng.chance(1, 5), slots, &progs, &sched, false)
+            }
             _ => {
                 let progs: Vec<Vec<Op>> = (0..n).map(|_| gen_prog(&mut rng, plen + 3, true, slots)).collect();
-                run_sp(&mut cx, *rng.pick(&[1usize, 1, 2]), &progs, &sched);
+                run_sp(&mut cx, *rng.pick(&[1usize, 1, 2, 4]), (k / 4) % 3 / 2, &progs, &sched, false);
             }
         }
         if k < 3 { cx.sum.sample(json!({"programs": progs_json(&progs), "schedule_prefix": sched.iter().take(24).collect::<Vec<_>>()})); }
@@ -1472,7 +1791,8 @@ pub fn run(args: &Args) {
         let reps = if args.thorough { 6 } else { 2 };
         for rep in 0..reps {
             let c = json!({"cell": cell, "threads": if rep % 2 == 0 { 4 } else { 3 }, "iters": iters, "seed": args.seed * 100 + i as u64 * 10 + rep as u64,
-                           "size": if rep % 2 == 0 { 64 } else { 24 }, "hold": if rep % 2 == 0 { 2 } else { 5 }, "cache": if rep % 2 == 0 { 1 } else { 3 }});
+                           "size": if rep % 2 == 0 { 64 } else { 24 }, "hold": if rep % 2 == 0 { 2 } else { 5 }, "cache": if rep % 2 == 0 { 1 } else { 3 },
+                           "zero": rep % 2 == 1});
             stress_case(&mut cx, &c);
         }
     }
